@@ -134,6 +134,22 @@ def reuse_clauses(nd, inotes, cols, text):
         fail("two iterators over one note data object disturb each other", len(inotes), len(pairs))
     if third != inotes:
         fail("a later pass over the note data reads differently", len(inotes), [str(n) for n in third[:6]])
+    # two live iterators at different rows: an outer pass paused after k notes while an inner pass runs to the end
+    for k in sorted({1, len(inotes) // 2 + 1} if len(inotes) >= 2 else ()):
+        try:
+            nested = NoteData(str(nd))
+            it = iter(nested)
+            head = [next(it) for _ in range(k)]
+            inner = list(nested)
+            outer = head + list(it)
+            if inner != inotes:
+                fail("a pass started while another pass is under way reads differently", len(inotes), "different")
+            elif outer != inotes:
+                fail("a pass is disturbed by a pass started while it is under way", [str(n) for n in inotes[:6]], [str(n) for n in outer[:6]])
+        except core.WatchdogTimeout:
+            raise
+        except Exception as e:
+            fail("nested passes over one note data object raised", "notes", f"{type(e).__name__}: {e}")
     for label, make in (("generator", lambda: (n for n in inotes)), ("the NoteData object itself", lambda: nd)):
         try:
             t = str(NoteData.from_notes(make(), cols))
